@@ -5,7 +5,7 @@ Classic recipe
 {"types", "mtypes", "keys", "expr", "x"}   as in props/c04_constant_input.py; expr = ["ham", ic_iters, psdt, lh-tree]
  "n_samples": 1..3, "mirror": bool, "seed": int      sampling configuration (RNG seed for nifty.cl.random.Context)
  "geo": 0 | n                                        n > 0: geoVI sampling with NewtonCG(iteration_limit=n)
- "steps": 1..3                                       NewtonCG iterations of the KL minimisation
+ "steps": 1..2                                       NewtonCG iterations of the KL minimisation
  "delta": {key: [...]}, "probe": {key: [...]}        shift of the expansion point, metric probe vector
  "ntask": 1..4, "sched": [ints]                      (distributed sub-check only) simulated MPI tasks, schedule
 
@@ -47,9 +47,10 @@ LEVEL = "exploration"
 TECHNIQUE = ("PBT: independent per-sample loop over the un-specialised Hamiltonian (value, gradient, dense metric) "
              "vs. the sampled KL, exhaustive over constant/point-estimate splits")
 RULE = ("Classic: generated StandardHamiltonians (likelihood trees of props/c04: Gaussian with/without data and "
-        "inverse covariance, Poissonian, Bernoulli, InverseGamma, StudentT, VariableCovarianceGaussian, sums, scaled, "
-        "averaged) on 2-3 key MultiDomains; for EVERY admissible split of the keys into constants / point_estimates "
-        "(incl. keys in both), mirrored or not, n_samples 1-3, MGVI and geoVI sampling: SampledKLEnergy value, "
+        "inverse covariance, Poissonian, Bernoulli, InverseGamma, StudentT, VariableCovarianceGaussian, sums, scaled) "
+        "on 2-3 key MultiDomains; for EVERY admissible split of the keys into constants / point_estimates "
+        "(incl. keys in both), mirrored or not, n_samples 1-3 (3-key cases: at most 3 samples in total), MGVI and geoVI "
+        "sampling: SampledKLEnergy value, "
         "gradient and dense metric against an independent loop over kl.samples.iterator() evaluating the "
         "un-specialised Hamiltonian; constants absent from kl.position and bit-unchanged after NewtonCG steps; "
         "kl.at(p2) keeps the residuals bit-identically. The same under 2-4 simulated MPI tasks. JAX: "
@@ -69,7 +70,8 @@ ASSUMPTIONS = [
     "(classic) resp. at new_position + (sample_i - old_position) (JAX)",
     "real float64 fields only; positions dyadic in [-2, 2]; generated likelihood trees keep all intermediate values "
     "finite for inputs in [-10.25, 10.25] (position + residual; a residual beyond 8 sigma has probability < 1e-15); "
-    "cases where the reference itself is non-finite are discarded",
+    "where the reference itself is non-finite the comparison is skipped (classic: that split, class "
+    "'reference_nonfinite', and the case does not count as non-trivial; JAX: the case is discarded)",
     "comparison tolerance 1e-9 relative to max(1, |a|, |b|) (classic: specialised operators re-associate sums; "
     "JAX: vmap/jit vs eager evaluation order)",
     "'keeps the residuals' is checked bit-exactly on the stored residual fields (ResidualSampleList._r/_n, "
@@ -196,7 +198,7 @@ def _geo_ok(H):
     return dt is not None
 
 
-def _check_split(ift_, H, X, keys, C, P, rec, classes, comm=None):
+def _check_split(H, X, keys, C, P, rec, classes, comm=None):
     dom = H.domain
     Cset = set(C)
     V = [k for k in keys if k not in Cset]
@@ -349,7 +351,7 @@ def check_classic(rec):
         nsplit = 0
         depth0 = len(ift.random._sseq)
         for C, P in _splits(keys):
-            _check_split(ift, H, X, keys, C, P, rec, classes)
+            _check_split(H, X, keys, C, P, rec, classes)
             nsplit += 1
             if C and P and set(C) != set(P):
                 classes.add("split_differing_C_P")
@@ -386,7 +388,7 @@ def check_distributed(rec):
 
         def body(comm):
             classes = set()
-            _check_split(ift, H, X, keys, C, P, rec, classes, comm=comm)
+            _check_split(H, X, keys, C, P, rec, classes, comm=comm)
             return classes
 
         depth0 = len(R._sseq)
@@ -957,10 +959,11 @@ def jax_recipes(draw, tier):
         states = [draw(st.booleans()) for _ in keys]
         sel = [k for k, s in zip(keys, states) if s]
         return sel[:max_len]
-    kind = draw(st.sampled_from(["draw", "draw", "given", "given", "none"]))
+    kind = draw(st.sampled_from(["given", "draw", "draw", "given", "none"]))
     pe = subset(len(keys) - 1)
     const = subset(len(keys) - 1)
-    if draw(st.booleans()) and kind != "none":
+    if not draw(st.booleans()) and kind != "none":
+        # (this branch is taken for the MINIMAL draw, so the first example of every shard already has the shape)
         # force the interesting shape: non-empty, different constants and point estimates
         pe = [draw(st.sampled_from(keys))]
         const = [draw(st.sampled_from([k for k in keys if k != pe[0]]))]
@@ -980,7 +983,7 @@ def jax_recipes(draw, tier):
             "pos": {k: draw(st.lists(JNUM, min_size=JSIZE[k], max_size=JSIZE[k])) for k in keys},
             "pos2": {k: draw(st.lists(JNUM, min_size=JSIZE[k], max_size=JSIZE[k])) for k in keys},
             "samples": samples, "pe": pe, "const": const,
-            "jit": draw(st.integers(0, 3)) == 0, "map": draw(st.sampled_from(["vmap", "vmap", "lmap", "smap"])),
+            "jit": draw(st.integers(0, 3)) == 3, "map": draw(st.sampled_from(["vmap", "vmap", "lmap", "smap"])),
             "map2": draw(st.sampled_from(["vmap", "lmap", "smap"])),
             "maxiter": draw(st.integers(1, 2)),
             "probe": draw(st.lists(S.dyadic(-2, 2, 4), min_size=D, max_size=D))}
